@@ -41,6 +41,8 @@ def check(repo, col, tier):
     col.rule("R-C10-rows", "row selection = in-view rows of the owning table where the key is set", 6)
     col.rule("R-C10-scatter", "index space of the scatter == position space of the array", 3)
     col.rule("R-C10-sentinel", "padded index reaches a scatter only through mode='drop' + remap", 2)
+    from . import c05 as _c05
+    _c05.pad_sentinel(repo, col, "R-C10-sentinel")     # ... and the pad IS the sentinel -1
     col.rule("R-C10-write-back", "write_trainables stores the simulated values", 4)
     col.rule("R-C10-pair", "trainable_params / indices_set_by_trainables change together", 3)
     from . import c11 as _c11, c19 as _c19
